@@ -259,8 +259,16 @@ fn check_cli(case: &Case, ctx: &Ctx) -> Outcome {
     let mut args = if companion {
         cli::write_fastq(&dir.join("reads_1.fastq"), &[(reads[0].clone(), vec![b'I'; reads[0].len()])]);
         cli::write_fastq(&dir.join("reads_2.fastq"), &[(reads[1].clone(), vec![b'I'; reads[1].len()])]);
-        std::fs::write(dir.join("list.txt"), "smp\tsmp.fa\nreads\treads_1.fastq\treads_2.fastq\n").unwrap();
-        vec!["build", "-o", "out", "-k", &ks, "-f", "list.txt", "--min-count", "1", "--qual-filter", "no-filter"]
+        // a third of these lists live in another directory, next to a different file that happens to have the
+        // name of a list entry: entries are paths as the shell would read them (relative to the working directory)
+        let elsewhere = (seqs.len() + case.k) % 3 == 0;
+        let lp = if elsewhere { "lists/list.txt" } else { "list.txt" };
+        if elsewhere {
+            std::fs::create_dir_all(dir.join("lists")).unwrap();
+            cli::write_fasta_auto(&dir.join("lists/smp.fa"), &[gen::filler(case.k + 9, 7)], None);
+        }
+        std::fs::write(dir.join(lp), "smp\tsmp.fa\nreads\treads_1.fastq\treads_2.fastq\n").unwrap();
+        vec!["build", "-o", "out", "-k", &ks, "-f", lp, "--min-count", "1", "--qual-filter", "no-filter"]
     } else if !dict.is_empty() && seqs.len() >= 2 && (case.k / 2 + seqs.len()) % 4 == 1 {
         // one sample whose records are spread over two FASTA files named on one list line
         // (chromosome.fa plus plasmids.fa of an isolate): the sample is the union of both files
